@@ -97,7 +97,9 @@ func (root *Root) ResolveExecutable(
 			// input object defaults in place so work on a copy.
 			opVars[vd.Name] = cloneValue(vd.Default)
 			if vars != nil {
-				if v := vars[vd.Name]; v != nil {
+				// A variable set to null is set, the default is for a
+				// variable that is left out.
+				if v, has := vars[vd.Name]; has {
 					if ic, _ := vd.Type.(InCoercer); ic != nil { // validated in SDL validation
 						v, err = ic.CoerceIn(v)
 					}
